@@ -49,3 +49,10 @@ Lemma rt_sample_parses : match parse (rt_sample ++ bs "* 1 EXISTS") with
       rest = bs "* 1 EXISTS" /\ lookup "subject" fs = VSome (VBytes [41; 13; 10])
   | _ => False end.
 Proof. vm_compute. split; reflexivity. Qed.
+
+(* C08 listed finding, reproduced on the model: a literal whose content is not UTF-8 inside a bracketed response
+   code.  The code is refused, resp_text falls back to plain text, and the response "ends" at the literal header. *)
+Definition c08_witness : list byte := bs "* OK [BADCHARSET ({2}" ++ [13; 10; 255; 254] ++ bs ")] x" ++ [13; 10].
+Lemma c08_code_literal_fallback :
+  exists rest v, parse c08_witness = ROk rest v 23 /\ rest = [255; 254] ++ bs ")] x" ++ [13; 10].
+Proof. eexists _, _. split; vm_compute; reflexivity. Qed.
